@@ -91,7 +91,18 @@ Outcomes(g, h, op) ==
              g2 == [g EXCEPT !.bd = Put(@, {a, b}, [role |-> role, at |-> Attrs(k, v)])]
          IN IF a \notin Atoms(g) \/ b \notin Atoms(g) \/ a = b THEN { RAISE(g) }
             ELSE IF {a, b} \notin Bonds(g) THEN { OK(g2) } ELSE { RAISE(g), OK(g2) }
-    [] n \in {"add_bond_badrole", "set_bond_badrole"} -> { RAISE(g) }
+    [] n \in {"add_bond_badrole", "set_bond_badrole", "add_formed_badrole", "add_broken_badrole", "add_fleeting_badrole"} ->
+         { RAISE(g) }         \* a reaction label of the wrong type, through whichever door
+    [] n = "bonds_from_matrix" ->      \* bonds_from_bond_order_matrix: op.S = codes 10*lo+hi of the pairs with an entry above
+         \* the threshold (rows / columns in the order of the atoms), op.flag = the matrix also has a diagonal entry.
+         \* Existing bonds may be re-added (attributes replaced, as add_bond does) or left alone; a diagonal entry is
+         \* either ignored or refused - but a refusal has to leave the graph as it was.
+         LET prs == { {c \div 10, c % 10} : c \in op.S }
+             plain == [role |-> "none", at |-> Emp]
+             g2 == [g EXCEPT !.bd = [x \in DOMAIN @ \cup prs |-> IF x \in prs THEN plain ELSE @[x]]]
+             g3 == [g EXCEPT !.bd = [x \in DOMAIN @ \cup prs |-> IF x \in DOMAIN @ THEN @[x] ELSE plain]]
+         IN IF ~(UNION prs \subseteq Atoms(g)) THEN { RAISE(g) }
+            ELSE IF op.flag THEN { RAISE(g), OK(g2), OK(g3) } ELSE { OK(g2), OK(g3) }
     [] n = "remove_bond" ->
          IF HasBond(g, a, b)
            THEN { OK([g EXCEPT !.bd = Drop(@, {{a, b}})]),
@@ -219,7 +230,8 @@ Outcomes(g, h, op) ==
     [] OTHER -> {}
 
 Mutators == {"add_atom", "remove_atom", "add_bond", "add_formed_bond", "add_broken_bond",
-             "add_fleeting_bond", "add_bond_badrole", "set_bond_badrole", "remove_bond",
+             "add_fleeting_bond", "add_bond_badrole", "set_bond_badrole", "add_formed_badrole", "add_broken_badrole",
+             "add_fleeting_badrole", "bonds_from_matrix", "remove_bond",
              "set_atom_attr", "del_atom_attr", "set_bond_attr", "set_bond_role", "del_bond_attr",
              "del_bond_role", "set_atom_stereo", "del_atom_stereo", "set_bond_stereo",
              "del_bond_stereo", "set_atom_stereo_change", "set_bond_stereo_change",
